@@ -76,9 +76,11 @@ def extra_cases(tier, seed):
 def prove(tier, seed):
     from vt.pyvc.termproofs import merge, prove_terms
 
+    from props.C17_bilinear import prove_part
+
     a = prove_index_and_tensor(tier, seed)
     b = prove_terms(TERM_PREDS, TERM_MUTS, tier, "c16t", replay_clause="tol.matrix")
-    return merge(a, b)
+    return merge(merge(a, b), prove_part("C16"))
 
 
 def prove_index_and_tensor(tier, seed):
